@@ -197,3 +197,7 @@ func vh_C09_L7_every_blocked_reader_is_woken() {
 	vassert(vCondParked(s.readNotifier) == 0, "every reader blocked on the stream is woken by the teardown")
 	vcover("end")
 }
+
+// C09.L8: a read deadline that passes after the teardown does not hide the teardown error
+// from readers (same obligation as C18.L4).
+func vh_C09_L8_deadline_does_not_replace_teardown_error() { vh_C18_L4_read_deadline() }
